@@ -93,9 +93,10 @@ def walk(ctx, rep, label, depth, max_stack, budget, rng, observers, found, check
         path = path_to(u) + [(lab[0], lab[1], nodes[v])]
         o = sd.execute(rep, path, check_calls=check_calls)
         n += 1
+        # distinct = distinct behaviours; non-trivial = a block was opened or a computation started
+        ctx.count(1, distinct_key=(label, sd.history(path, len(path) - 1)), nontrivial=any(a.startswith("Enter") or a.startswith("Start") for a, _, _ in path))
         record(found, path, o, observers)
     ctx.part("graph_walk_%s" % label, states=len(nodes), edges=len(edges), edges_to_top_or_call=total, replayed=n, wall_s=round(time.time() - t0, 1))
-    ctx.count(n, distinct_key=("graph", label))
     if order:
         u = order[min(len(order) - 1, 300)]
         ctx.sample({"behaviour": sd.history(path_to(u), len(path_to(u)) - 1)})
@@ -131,10 +132,10 @@ def simulate(ctx, rep, label, n, depth, max_stack, observers, found, check_calls
             continue
         o = sd.execute(rep, path, check_calls=check_calls)
         record(found, path, o, observers)
+        ctx.count(1, distinct_key=("sim", sd.history(path, len(path) - 1)))
         k += 1
         steps += o.steps
     ctx.part("simulated_%s" % label, behaviours=k, steps=steps, depth=depth)
-    ctx.count(k, distinct_key=("sim", label))
     ctx.cov["transitions"] += steps
     return k
 
@@ -170,7 +171,7 @@ def run(ctx):
         "Session.tla: TLC enumerates every behaviour (nesting <= 2-3, every Raise/Abandon point, faults after the k-th inner "
         "evaluation of each computation) up to the depth bound and checks Transparent; every graph edge returning to top "
         "level (seeded sample above the tier budget) and TLC-simulated behaviours are executed on a real AmplitudeModel; "
-        "distinct = (part) cells; failures are grouped by root-cause signature (open block kinds + failing action)"
+        "distinct = distinct behaviours executed on the real model (non-trivial: at least one block or computation); failures are grouped by root-cause signature (open block kinds + failing action)"
     )
     ctx.assume("faults are injected as exceptions raised by DecayGroup.sum_amp (inner evaluation) or inside the with-body")
     ctx.assume("one probe parameter (a resonance mass); two real groups: 3-body with three chains of one resonance each, and a 4-body cascade whose chains share a Decay object; density observed on 6 probe events")
